@@ -1131,12 +1131,11 @@ example : NoOther [(1, Rec.bad .eof), (2, .good [] 3)] := by
 
 /-- The except clause of `FileSession._load`, as measured on the live code on every run, is exactly the
     one the model transcribes: EOFError and UnpicklingError (and a missing file) are "no session",
-    other classes propagate; ids are 20 random bytes written as 40 hex digits. -/
+    other classes propagate; an id is 40 characters long. -/
 theorem C14_except_clause_table :
     (∀ e, CpModel.Gen.C14.loadCatches e = (loadData { store := [(0, .bad e)] } 0).isSome) ∧
-    CpModel.Gen.C14.missingFileIsNone = true ∧
-    CpModel.Gen.C14.idBytes = 20 ∧ CpModel.Gen.C14.idTextLen = 40 := by
-  refine ⟨fun e => ?_, rfl, rfl, rfl⟩
+    CpModel.Gen.C14.missingFileIsNone = true ∧ CpModel.Gen.C14.idTextLen = 40 := by
+  refine ⟨fun e => ?_, rfl, rfl⟩
   cases e <;> rfl
 
 end CpProofs.C14
